@@ -10,7 +10,53 @@ use crate::rng::mix;
 pub struct C10;
 
 /// Breaks exactly one thing in a valid request; returns what was broken.
+/// A long value full of multi-byte characters that is not a number, bool or
+/// enum variant: error messages that quote the offending input get long and
+/// non-ASCII.
+fn long_unicode(r: &mut Rng) -> String {
+    let n = r.usize_in(60, 400);
+    let pad = r.usize_in(0, 3);
+    let mut s = "x".repeat(pad);
+    for _ in 0..n {
+        s.push(*r.pick(&['é', '中', '😀', 'ß', '\u{ffff}']));
+    }
+    s
+}
+
 pub fn malform(r: &mut Rng, e: &mut EchoReq) -> Option<String> {
+    if r.chance(1, 8) {
+        let big = long_unicode(r);
+        match e.op {
+            "echo_typed" => {
+                match r.below(3) {
+                    0 => {
+                        let idx = r.usize_in(2, 4);
+                        e.path_segs[idx] = enc_seg(r, &big);
+                        return Some(format!("path segment {idx} = long non-ASCII text ({} bytes)", big.len()));
+                    }
+                    1 => {
+                        let key = *r.pick(&["qu", "qf", "qe", "qb"]);
+                        e.query.retain(|(k, _)| k != key);
+                        e.query.push((key.to_string(), enc_form(r, &big)));
+                        return Some(format!("query {key} = long non-ASCII text ({} bytes)", big.len()));
+                    }
+                    _ => {
+                        let body = String::from_utf8_lossy(&e.body.clone().unwrap_or_default()).to_string();
+                        let key = *r.pick(&["e", "i", "b"]);
+                        let nb = replace_field(&body, key, &serde_json::to_string(&big).unwrap());
+                        e.body = Some(nb);
+                        return Some(format!("json {key} = long non-ASCII string ({} bytes)", big.len()));
+                    }
+                }
+            }
+            "echo_narrow" => {
+                let idx = r.usize_in(1, 3);
+                e.path_segs[idx] = enc_seg(r, &big);
+                return Some(format!("narrow path segment {idx} = long non-ASCII text ({} bytes)", big.len()));
+            }
+            _ => {}
+        }
+    }
     match e.op {
         "echo_typed" => match r.below(4) {
             0 => {
